@@ -9,6 +9,7 @@ a healthy one.  DESIGN.md §5 C19.
 """
 import itertools
 import json
+import time
 import pathlib
 
 from vf import ledger, report
@@ -160,12 +161,20 @@ def client_case(case):
                     listing=case.get("listing", "").encode("latin-1"))
     for k, v in case.get("listing_by_arg", {}).items():
         fs.listing_by_arg[k] = v.encode("latin-1")
+    for k, v in case.get("replies_by_line", {}).items():
+        fs.replies_by_line[k] = v.encode("latin-1")
     result = {}
+    tmp = None
     try:
         w.run(fs.start())
 
+        if case["op"] == "download-tree":
+            # judged on a real file system ("..": the in-memory backend would keep it as a literal name)
+            from vf import backends as _b
+            tmp = _b.TempDir()
+
         async def main():
-            c = a.Client(path_io_factory=a.MemoryPathIO)
+            c = a.Client(path_io_factory=a.MemoryPathIO if tmp is None else a.PathIO)
             try:
                 await c.connect("127.0.0.1", 2121)
                 await c.login("u", "p")
@@ -184,6 +193,19 @@ def client_case(case):
                         result["value"] = (await st.read()).decode("latin-1")
                 elif op == "exists":
                     result["value"] = await c.exists("/d/x")
+                elif op == "download-tree":
+                    # the whole listed directory is fetched into x/y/dest below a scratch directory
+                    import os
+                    root = tmp.path
+                    try:
+                        await c.download("/d", root / "x" / "y" / "dest", write_into=True)
+                    finally:
+                        made = []
+                        for dirpath, dirnames, filenames in os.walk(root):
+                            for n in dirnames + filenames:
+                                made.append("/" + os.path.relpath(os.path.join(dirpath, n), root))
+                        result["local_paths"] = sorted(made)
+                    result["value"] = result["local_paths"]
                 result["outcome"] = "returned"
             except Exception as exc:
                 result["outcome"] = "raised"
@@ -218,6 +240,11 @@ def client_case(case):
             w.close()
         except Exception:
             pass
+        try:
+            if tmp is not None:
+                tmp.cleanup()
+        except Exception:
+            pass
 
 
 def client_work(cases):
@@ -239,6 +266,12 @@ def client_work(cases):
                                      "lines": case["expect_lines"]})
             elif not result.get("exc_is_value_error") and result.get("exc") not in ("StatusCodeError", "ConnectionResetError"):
                 problems.append({"kind": "listing-error-not-valueerror", "exc": result.get("exc")})
+        if case.get("inside"):
+            inside = case["inside"]
+            parents = {"/"} | {inside[:i] for i in range(1, len(inside)) if inside[i] == "/"}
+            out = [q for q in result.get("local_paths", []) if q != inside and not q.startswith(inside + "/") and q not in parents]
+            if out:
+                problems.append({"kind": "written-outside-the-download-directory", "paths": out})
         for p in problems[:1]:
             part.violation({"kind": p["kind"], "op": case["op"], "mutated": case.get("mutated")},
                            {"problem": p, "case": case, "result": result}, replay={"client": case})
@@ -310,6 +343,16 @@ def client_items(tier):
                       "mutated": "dot-entries", "expect_lines": 2 if op == "list" else None})
         cases.append({"op": op, "raw": "MLSD", "listing": L(mdots), "listing_by_arg": {"/d/sub": L(b"Type=cdir; .\r\nType=pdir; ..\r\n")},
                       "mutated": "dot-entries", "expect_lines": 2 if op == "list" else None})
+    # names in a listing that are not plain names: whatever the client makes of them, nothing is written outside the
+    # directory the caller asked the download to go to
+    for raw, mk in (("MLSD", lambda n: b"Type=file;Size=3; " + n), ("LIST", lambda n: b"-rw-r--r-- 1 n n 3 Jan 15 12:30 " + n)):
+        for bad in (b"../../evil", b"../evil", b"/abs", b"a/../../../evil", b"..", b"sub/../../evil2", b"./../evil3", b"ok/deep"):
+            body = mk(b"good") + b"\r\n" + mk(bad) + b"\r\n"
+            rep = {"MLST": "250-s\r\n Type=file;Size=3; f\r\n250 e\r\n"}
+            if raw == "LIST":
+                rep["MLSD"] = "500 no\r\n"
+            cases.append({"op": "download-tree", "raw": raw, "replies": rep, "listing": L(body), "mutated": "traversal-name",
+                          "replies_by_line": {"MLST /d": "250-s\r\n Type=dir; d\r\n250 e\r\n"}, "inside": "/x/y/dest"})
     # mutated control replies
     for verb, seeds in (("greeting", ["220 hello\r\n", "220-a\r\n b\r\n220 c\r\n"]), ("USER", ["331 pw\r\n"]),
                         ("PASS", ["230 ok\r\n"]), ("TYPE", ["200 ok\r\n"]), ("PWD", [s + "\r\n" for s in D257]),
@@ -334,6 +377,9 @@ VALID = ["USER anonymous", "PASS x", "CWD d", "MKD n", "RETR d/f", "STOR n", "RE
          "PBSZ 0", "PROT P"]
 
 
+STALL_LIMIT = float(__import__("os").environ.get("VERIF_STALL_LIMIT", "6"))
+
+
 def hostile_lines(tier):
     out = []
     for b in range(256):
@@ -345,6 +391,12 @@ def hostile_lines(tier):
         out.append(b"A" * n + b"\r\n")
         out.append(b"CWD " + b"a" * n + b"\r\n")
         out.append(b"x" * n)
+    # paths of very many components (still below the line limit): the time one command takes is time no other session
+    # is served in
+    for verb in (b"CWD", b"MKD", b"MLST", b"DELE", b"RNFR", b"STOR", b"RMD", b"LIST"):
+        for n in (8000, 32000):
+            out.append(verb + b" " + b"a/" * n + b"\r\n")
+            out.append(verb + b" /" + b"../" * n + b"x\r\n")
     for v in VALID:
         raw = v.encode()
         for k in range(len(raw) + 1):
@@ -394,6 +446,8 @@ def server_work(item):
             hostile, healthy = rig.sessions[1], rig.sessions[0]
             rig.ev(0, HEALTHY[0])
             rig.ev(0, HEALTHY[1])
+            tree_before = rig.snapshot()
+            t_wall = time.monotonic()
             try:
                 with Running(w.loop):
                     if isinstance(line, tuple):
@@ -402,6 +456,16 @@ def server_work(item):
                     else:
                         hostile.ctl.send(line)
                 w.settle()
+                stalled = time.monotonic() - t_wall
+                if stalled > STALL_LIMIT:
+                    # one event loop: while it works on this line nobody else is served (wall-clock, a generous bound:
+                    # the repaired tree needs a fraction of a second)
+                    problems.append({"kind": "one-line-keeps-the-server-busy", "seconds": round(stalled, 1),
+                                     "line_length": len(line) if not isinstance(line, tuple) else len(line[1])})
+                if isinstance(line, tuple) and rig.snapshot() != tree_before:
+                    # the stream ended before the line did: what the peer meant to send is unknown (`DELE g` may be
+                    # the beginning of `DELE g.bak`) - a command that was cut off is not carried out
+                    problems.append({"kind": "command-cut-off-by-end-of-stream-carried-out", "sent": line[1].decode("latin-1")})
                 for e in HEALTHY[2:]:
                     rig.ev(0, e)
                 if not isinstance(line, tuple):
